@@ -8,6 +8,7 @@ package main
 //
 //   new ro=<ms> rw=<ms> idle=<ms>     fresh engine/manager/registry/service
 //   begin <c> ro|rw <deadline_ms>     service.BeginTransaction, ctx deadline, peer = conn<c>   -> ok | err timeout | err <..>
+//   beginbg <c> ro|rw                same with a context that has no deadline and is never cancelled
 //   hold ro|rw / release              another client holding a transaction directly on the manager
 //   txget <c> <k> / txput <c> <k> <v> / txdel <c> <k>      through the service handlers (k: hex, `=` empty, `big` 4097 bytes)
 //   commit <c> / rollback <c>         through the service handlers
@@ -60,6 +61,20 @@ const regLong, regShort = 5000, 40
 // every block starts and ends with no transaction alive
 func (x *regGen) block(tiny bool) {
 	g := x.g
+	if g.chance(1, 70) {
+		// the registry's own 10 s limit fires while the caller's context stays alive (never cancelled): the worker that
+		// obtains the lock afterwards must give it back (takes 10 s: rare)
+		hm := x.mode()
+		x.p("hold %s", hm)
+		m := "rw"
+		if hm == "rw" && g.chance(1, 3) {
+			m = "ro"
+		}
+		x.p("beginbg %d %s", x.client(), m)
+		x.p("release")
+		x.free()
+		return
+	}
 	switch k := g.intn(9); {
 	case k == 0: // begin-timeout while another client (not in the registry) holds the lock
 		hm := x.mode()
@@ -417,6 +432,14 @@ func (x *regRun) step(ws []string) (out string) {
 		d, _ := strconv.Atoi(ws[3])
 		ctx, cancel := context.WithTimeout(context.WithValue(bg, "peer", "conn"+ws[1]), time.Duration(d)*time.Millisecond)
 		defer cancel()
+		resp, err := x.svc.BeginTransaction(ctx, &pb.BeginTransactionRequest{ReadOnly: ws[2] == "ro"})
+		if err != nil {
+			return regErr(err)
+		}
+		x.handles[ws[1]] = resp.TransactionId
+		return "ok"
+	case "beginbg": // a context that is never cancelled and has no deadline: only the registry's internal limit ends the wait
+		ctx := context.WithValue(bg, "peer", "conn"+ws[1])
 		resp, err := x.svc.BeginTransaction(ctx, &pb.BeginTransactionRequest{ReadOnly: ws[2] == "ro"})
 		if err != nil {
 			return regErr(err)
